@@ -240,7 +240,9 @@ fn determine_target(
     let mut port = 80u16;
     let mut path = target.to_string();
 
-    if target.starts_with("http://") || target.starts_with("https://") {
+    // the scheme of a URI is case-insensitive
+    let target_lower = target.to_ascii_lowercase();
+    if target_lower.starts_with("http://") || target_lower.starts_with("https://") {
         let without_scheme = if let Some(pos) = target.find("://") {
             &target[pos + 3..]
         } else {
@@ -255,7 +257,7 @@ fn determine_target(
             path = "/".to_string();
         }
 
-        if target.starts_with("https://") {
+        if target_lower.starts_with("https://") {
             port = 443;
         }
     } else if let Some(h) = host_header.clone() {
